@@ -65,6 +65,37 @@ def run(ctx):
     res.check(len(sk.calls_to(r"i64::saturating_add$")) >= 2 and len(sk.calls_to(r"Ord>?::max$")) >= 2 and len(sk.calls_to(r"Ord>?::min$")) >= 1,
               "R14.1", "seek-saturating", sk.where(), "seek uses saturating_add + max(0) + min(len)", "seek no longer saturates/clamps its arithmetic")
 
+    # seek bases: Start -> pos, End -> len + pos, Current -> cursor + pos (table over the SeekFrom arms)
+    BASE = {"End": "len(self.items)", "Current": "cursor.cursor"}
+    seen_arm = set()
+    for c in sk.calls_to(r"i64::saturating_add$"):
+        a0, a1 = expr(sk, c.args[0]), expr(sk, c.args[1])
+        m = re.fullmatch(r"pos#(End|Current)\.0", a1)
+        if not m:
+            res.violation("R14.1", "seek-base|unrecognised", c.where(), "seek adds %s to %s: the offset is not the payload of a SeekFrom arm" % (a1, a0))
+            continue
+        seen_arm.add(m.group(1))
+        res.check(a0 == BASE[m.group(1)], "R14.1", "seek-base|" + m.group(1), c.where(), "SeekFrom::%s(pos) -> %s + pos" % (m.group(1), BASE[m.group(1)]),
+                  "SeekFrom::%s is computed relative to %s, expected %s" % (m.group(1), a0, BASE[m.group(1)]))
+    for arm in BASE:
+        if arm not in seen_arm and len(sk.calls_to(r"i64::saturating_add$")) >= 2:
+            res.violation("R14.1", "seek-base|" + arm, sk.where(), "no SeekFrom::%s(pos) -> base + pos computation found in seek" % arm)
+    wr = [(i, s_) for i, s_ in writes_field(sk, "cursor")]
+    res.check(len(wr) == 1 and wr[0][1]["rv"]["k"] == "use" and re.fullmatch(r"min\(pos,len\(self\.items\)\)", expr(sk, wr[0][1]["rv"]["op"])) is not None, "R14.1", "seek-clamped-store", sk.where(),
+              "cursor := min(pos, items.len())", "seek stores %s" % [expr(sk, s_["rv"]["op"]) if s_["rv"]["k"] == "use" else s_["rv"]["k"] for i, s_ in wr])
+    # peek / is_end / next_os read the element AT the cursor through the checked accessor
+    for fn_ in ("peek_os", "next_os"):
+        b_ = fx.body("clap_lex::RawArgs::" + fn_)
+        g_ = b_.calls_to(r"\[T\]::get$")
+        res.check(len(g_) == 1 and expr(b_, g_[0].args[1]) == "cursor.cursor", "R14.1", "element-at-cursor|" + fn_, b_.where(), "%s = items.get(cursor)" % fn_,
+                  "%s reads items.get(%s)" % (fn_, expr(b_, g_[0].args[1]) if g_ else "?"))
+    no = fx.body("clap_lex::RawArgs::next_os")
+    wn = writes_field(no, "cursor")
+    res.check(len(wn) == 1 and wn[0][1]["rv"]["k"] == "use" and expr(no, wn[0][1]["rv"]["op"]) == "saturating_add(cursor.cursor,1)", "R14.1", "next-advances-by-one", no.where(),
+              "next_os advances the cursor by exactly one", "next_os advances the cursor by %s" % [expr(no, s_["rv"]["op"]) if s_["rv"]["k"] == "use" else s_["rv"]["k"] for i, s_ in wn])
+    ie_ = fx.body("clap_lex::RawArgs::is_end")
+    res.check(bool(ie_.calls_to(r"RawArgs::peek_os$")) and bool(ie_.calls_to(r"Option::is_none$")), "R14.1", "is_end", ie_.where(), "is_end = peek_os().is_none()", "is_end no longer is `nothing at the cursor`")
+
     # ---- R14.2 byte helpers are byte helpers
     for b in fx.bodies(r"^<std::ffi::os_str::OsStr as clap_lex::ext::OsStrExt>::", crate="clap_lex"):
         name = b.q.rsplit("::", 1)[1].split("::{")[0]
